@@ -12,6 +12,7 @@ import (
 	"time"
 
 	"github.com/aml-org/amf-custom-validator/pkg"
+	"github.com/aml-org/amf-custom-validator/pkg/config"
 )
 
 // racestress: N goroutines mixing every entry point over mixed profiles and data (one compiled profile is
@@ -20,12 +21,15 @@ import (
 func runRaceStress(seed int64, goroutines, callsEach int) {
 	g := &G{r: rand.New(rand.NewSource(seed))}
 	maxBranches = 6
-	type job struct{ profile, data string }
+	type job struct {
+		profile, data string
+		rc            *config.ReportConfiguration
+	}
 	var jobs []job
 	for i := 0; i < 6; i++ {
 		c := genC01Graph(g, i, true)
 		prof := ProfileSpec{Name: fmt.Sprintf("race %d", i), Atoms: c.Atoms, Paths: c.Paths, Validations: c.Validations}
-		jobs = append(jobs, job{prof.Render(), c.Graph.RenderFlat()})
+		jobs = append(jobs, job{profile: prof.Render(), data: c.Graph.RenderFlat()})
 	}
 	// profiles every call must reject: at the parser (missing targetClass at the very end) and at the generator
 	// (undeclared prefix in the last of many validations, so that the compilations overlap for a while)
@@ -51,7 +55,7 @@ func runRaceStress(seed int64, goroutines, callsEach int) {
 	for k := 0; k < 40; k++ {
 		fmt.Fprintf(&big, "  b%d:\n    targetClass: ex.T\n    message: m\n    propertyConstraints:\n      ex.p%d / ex.p%d:\n        minCount: %d\n      ex.p%d:\n        in: [a, b, \"%d\"]\n", k, k%4, (k/4)%4, 1+k%2, (k+1)%4, k%3)
 	}
-	jobs = append(jobs, job{big.String(), jobs[1].data})
+	jobs = append(jobs, job{profile: big.String(), data: jobs[1].data})
 	// COLD jobs: profiles without a `prefixes` section (built-in aliases only), each over property names no other call of this
 	// process has seen; their serial references are computed AFTER the concurrent phase, so the concurrent calls are the
 	// first to touch whatever the library keeps per process
@@ -63,7 +67,7 @@ func runRaceStress(seed int64, goroutines, callsEach int) {
 			fmt.Fprintf(&cp, "      core.n%d_%d_%d:\n        minCount: 1\n", seed%1000, k, j)
 		}
 		cp.WriteString("      core.name:\n        pattern: ^[a-z]+$\n")
-		jobs = append(jobs, job{cp.String(), `[{"@id":"http://ex.org/n/0","@type":["http://a.ml/vocabularies/apiContract#EndPoint"],"http://a.ml/vocabularies/core#name":"Abc"}]`})
+		jobs = append(jobs, job{profile: cp.String(), data: `[{"@id":"http://ex.org/n/0","@type":["http://a.ml/vocabularies/apiContract#EndPoint"],"http://a.ml/vocabularies/core#name":"Abc"}]`})
 	}
 	// ... and documents whose @context is not inline but a FILE the JSON-LD processor has to load (one file per job, plus one
 	// shared file pulled in through @import): whatever the processor keeps about loaded documents is first touched concurrently
@@ -79,18 +83,50 @@ func runRaceStress(seed int64, goroutines, callsEach int) {
 				ctx = fmt.Sprintf(`{"@import":"%s","name%d":"core:name"}`, shared, k)
 			}
 			data := fmt.Sprintf(`{"@context":%s,"@id":"http://ex.org/n/%d","@type":"api:EndPoint","core:name":"Abc%d"}`, ctx, k, k)
-			jobs = append(jobs, job{jobs[nWarm+k].profile, data})
+			jobs = append(jobs, job{profile: jobs[nWarm+k].profile, data: data})
 		}
 	}
 	nCold := len(jobs) - nWarm
-	jobs = append(jobs, job{genFail, jobs[0].data}, job{parseFail, jobs[0].data})
+	// jobs whose EVALUATION fails (neither the compilation nor the reading of the data): a helper of rego_extensions with two
+	// clauses that disagree on some nodes.  Whatever a call holds while it evaluates must be given back on this way out too:
+	// the schedule below runs well over runtime.NumCPU() of them
+	evalFail := "profile: picky\nprefixes:\n  ex: " + NS + "\nrego_extensions: |\n  code_of(n) = c {\n    c := n[\"" + NS + "p0\"]\n  }\n  code_of(n) = c {\n    c := n[\"" + NS + "p1\"]\n  }\nviolation:\n  - has-code\nvalidations:\n  has-code:\n    message: m\n    targetClass: ex.T\n    rego: |\n      $result = (code_of($node) == 7)\n"
+	evalFailData := `[{"@id":"http://ex.org/n/0","@type":["` + NS + `T"],"` + NS + `p0":1,"` + NS + `p1":2},{"@id":"http://ex.org/n/1","@type":["` + NS + `T"],"` + NS + `p0":7}]`
+	evalOkData := `[{"@id":"http://ex.org/n/1","@type":["` + NS + `T"],"` + NS + `p0":7},{"@id":"http://ex.org/n/2","@type":["` + NS + `T"],"` + NS + `p1":3}]`
+	nEval := 0
+	for k := 0; k < 5; k++ {
+		d := evalFailData
+		if k == 4 {
+			d = evalOkData
+		}
+		jobs = append(jobs, job{profile: evalFail, data: d})
+		nEval++
+	}
+	// report configurations: every job has one of its own, and several of them agree in one schema IRI and differ in the other
+	for i := range jobs {
+		switch i % 5 {
+		case 1:
+			jobs[i].rc = &config.ReportConfiguration{IncludeReportCreationTime: true, ReportSchemaIri: defaultRC().ReportSchemaIri, LexicalSchemaIri: fmt.Sprintf("http://ex.org/lexical/%d#", i)}
+		case 2:
+			jobs[i].rc = &config.ReportConfiguration{IncludeReportCreationTime: true, ReportSchemaIri: fmt.Sprintf("http://ex.org/report/%d#", i), LexicalSchemaIri: defaultRC().LexicalSchemaIri}
+		case 3:
+			jobs[i].rc = &config.ReportConfiguration{IncludeReportCreationTime: false, ReportSchemaIri: "http://ex.org/report/shared#", LexicalSchemaIri: fmt.Sprintf("http://ex.org/lexical/%d#", i)}
+		}
+	}
+	rcFor := func(i int) config.ReportConfiguration {
+		if jobs[i].rc != nil {
+			return *jobs[i].rc
+		}
+		return defaultRC()
+	}
+	jobs = append(jobs, job{profile: genFail, data: jobs[0].data}, job{profile: parseFail, data: jobs[0].data})
 	isCold := func(i int) bool { return i >= nWarm && i < nWarm+nCold }
 	serial := make([]string, len(jobs))
 	for i, j := range jobs {
 		if isCold(i) {
 			continue
 		}
-		o := validate(j.profile, j.data, defaultRC())
+		o := validate(j.profile, j.data, rcFor(i))
 		serial[i] = o.Kind + "\n" + o.Report
 	}
 	shared, err := pkg.CompileProfile(jobs[0].profile, false, nil)
@@ -100,7 +136,7 @@ func runRaceStress(seed int64, goroutines, callsEach int) {
 	}
 	sharedSerial := make([]string, len(jobs))
 	for i, j := range jobs {
-		rep, err := pkg.ValidateCompiledWithConfiguration(shared, j.data, false, nil, fixedClock{}, defaultRC())
+		rep, err := pkg.ValidateCompiledWithConfiguration(shared, j.data, false, nil, fixedClock{}, rcFor(i))
 		sharedSerial[i] = fmt.Sprint(err == nil) + "\n" + rep
 	}
 	var wg sync.WaitGroup
@@ -120,6 +156,22 @@ func runRaceStress(seed int64, goroutines, callsEach int) {
 		what string
 	}
 	var kept []held
+	// a call that never returns is not "what it would return alone": after a generous deadline the calls still in flight are named
+	inflight := map[int]string{}
+	started := time.Now()
+	watchdog := time.AfterFunc(time.Duration(120+2*goroutines*callsEach)*time.Second, func() {
+		mu.Lock()
+		var stuck []string
+		for t := 0; t < goroutines; t++ {
+			if w, ok := inflight[t]; ok {
+				stuck = append(stuck, w)
+			}
+		}
+		b, _ := json.Marshal(map[string]any{"outcome": "blocked", "calls": calls, "goroutines": goroutines, "after_s": int(time.Since(started).Seconds()), "stuck": stuck, "mismatches": mismatches})
+		fmt.Println(string(b))
+		os.Exit(3)
+	})
+	defer watchdog.Stop()
 	for t := 0; t < goroutines; t++ {
 		wg.Add(1)
 		go func(t int) {
@@ -130,6 +182,11 @@ func runRaceStress(seed int64, goroutines, callsEach int) {
 					mismatches = append(mismatches, fmt.Sprintf("goroutine %d panicked: %v", t, r))
 					mu.Unlock()
 				}
+			}()
+			defer func() {
+				mu.Lock()
+				delete(inflight, t)
+				mu.Unlock()
 			}()
 			for k := 0; k < callsEach; k++ {
 				i := (t + k) % len(jobs)
@@ -142,8 +199,14 @@ func runRaceStress(seed int64, goroutines, callsEach int) {
 				case 2:
 					i = k % (len(jobs) - 2) // every goroutine works on the same valid job at the same time
 				}
+				if k%4 == 3 {
+					i = nWarm + nCold + (t+k)%nEval // calls whose evaluation fails (one in five of these jobs evaluates fine)
+				}
 				var got, want, what string
 				var raw, rawCopy string
+				mu.Lock()
+				inflight[t] = fmt.Sprintf("goroutine %d call %d on job %d", t, k, i)
+				mu.Unlock()
 				if k%4 == 2 {
 					// with an event channel and the library's milestone generator (all goroutines at the same time, on the same job):
 					// the milestones of THIS call lie inside this call
@@ -158,11 +221,11 @@ func runRaceStress(seed int64, goroutines, callsEach int) {
 				}
 				switch (t + 2*k) % 3 {
 				case 0:
-					o := validate(jobs[i].profile, jobs[i].data, defaultRC())
+					o := validate(jobs[i].profile, jobs[i].data, rcFor(i))
 					got, want, what = o.Kind+"\n"+o.Report, serial[i], "ValidateWithConfiguration"
 					raw, rawCopy = o.Raw, o.Report
 				case 1:
-					rep, err := pkg.ValidateCompiledWithConfiguration(shared, jobs[i].data, false, nil, fixedClock{}, defaultRC())
+					rep, err := pkg.ValidateCompiledWithConfiguration(shared, jobs[i].data, false, nil, fixedClock{}, rcFor(i))
 					got, want, what = fmt.Sprint(err == nil)+"\n"+rep, sharedSerial[i], "ValidateCompiled(shared)"
 				default:
 					c, err := pkg.CompileProfile(jobs[i].profile, false, nil)
@@ -172,7 +235,7 @@ func runRaceStress(seed int64, goroutines, callsEach int) {
 					} else if c == nil {
 						got, want, what = "nil compiled profile without an error", serial[i], "CompileProfile"
 					} else {
-						rep, err := pkg.ValidateCompiledWithConfiguration(c, jobs[i].data, false, nil, fixedClock{}, defaultRC())
+						rep, err := pkg.ValidateCompiledWithConfiguration(c, jobs[i].data, false, nil, fixedClock{}, rcFor(i))
 						got, want, what = "ok\n"+rep, serial[i], "CompileProfile+ValidateCompiled"
 						if err != nil {
 							got = "error\n"
@@ -205,7 +268,7 @@ func runRaceStress(seed int64, goroutines, callsEach int) {
 	// the cold jobs' references, now that the concurrent phase is over
 	for i, j := range jobs {
 		if isCold(i) {
-			o := validate(j.profile, j.data, defaultRC())
+			o := validate(j.profile, j.data, rcFor(i))
 			serial[i] = o.Kind + "\n" + o.Report
 		}
 	}
